@@ -101,6 +101,8 @@ def lit_feature(text):
     so that one defect class gets one key"""
     t = bytes(text)
     body = t[1:-1] if t[:1] in (b'"', b"'") else t
+    if t[:1] == b"[" and re.search(rb"\]=+[\r\n]", t[2:]):
+        return "near-closer-before-line-end"
     if b"\r\n" in t or b"\n\r" in t:
         return "newline-pair"
     if b"\r" in t:
@@ -163,6 +165,18 @@ def part_literals(thorough, verd, stats, cov):
             seen.add(key)
             cases.append({"id": len(cases), "src": c["t"]})
             meta.append(("src", "", c["v"], c["t"], c["kind"]))
+    # (ii') long brackets with near-closers ("]", "]=", "]==" ... of lower, equal-but-unterminated and higher level)
+    # directly before every kind of line end / other text / the end of the body
+    r = tlc_gen("nc")
+    add_stats(stats, r)
+    nc = [c for g in r.tag("GEN") for c in g["c"].values()]
+    for c in sorted(nc, key=lambda c: (len(c["t"]), c["t"])):
+        key = bytes(c["t"])
+        if key in seen or c["kind"] == "partial":
+            continue
+        seen.add(key)
+        cases.append({"id": len(cases), "src": c["t"]})
+        meta.append(("nc", "", c["v"], c["t"], c["kind"]))
     # (iii) seeded random source texts (expected value via the file mode of the spec)
     rng = random.Random(vlib.seed() * 1000003 + 16)
     pool = [92, 92, 34, 39, 10, 13, 48, 49, 50, 53, 57, 97, 110, 114, 120, 91, 93, 61, 0, 255, 32, 45]
@@ -670,6 +684,56 @@ def date_format_matrix(tz, off, zname, ts, stats, only=None):
     return fails, n
 
 
+def year_class(y):
+    return "negative-year" if y < 0 else "year-0-to-999" if y < 1000 else "year-above-9999" if y > 9999 else "year-1000-to-9999"
+
+
+def date_wide(tz, off, zname, rng, thorough, stats, only=None):
+    """instants over the whole range the implementation accepts (years <= 0 ... far future), given to the spec as
+    <<day number, second of day>>: os.date('*t') / os.date('!*t') fields, os.time round trip, os.time of the
+    spec's fields.  Expected values: CalendarMC.tla Mode "wide"."""
+    if only is None:
+        extra = [{"d": rng.randrange(-73000000, 73000000), "s": rng.randrange(86400)} for _ in range(3000 if thorough else 300)]
+        extra += [{"d": d, "s": s} for d in (-810186, -810185, -719529, -719528, -719163, -719162, -1, 0, 24855, 24856, 2932896, 2932897)
+                  for s in (0, 86399)]            # around t = -7e10, 0000-01-01, 0001-01-01, 1970, 2038, 9999-12-31
+    else:
+        extra = [only]
+    fn = "c16_wide_%s%d.ndjson" % ("w" if off < 0 else "e", abs(off))
+    vlib.write_ndjson(os.path.join(vlib.specdir(), fn), extra)
+    r = vlib.run_tlc("CalendarMC", "CalendarWide", workers=W, timeout=900, heap="4g",
+                     consts={"OffsetAbs": abs(off), "OffsetWest": "TRUE" if off < 0 else "FALSE", "ZoneName": '"%s"' % zname,
+                             "ExtraFile": '"%s"' % fn})
+    os.remove(os.path.join(vlib.specdir(), fn))
+    add_stats(stats, r)
+    exp = sorted(r.tag("GEN"), key=lambda g: (g["d"], g["s"]))
+    if only is not None:
+        exp = [g for g in exp if (g["d"], g["s"]) == (only["d"], only["s"])]
+    ts = [g["d"] * 86400 + g["s"] for g in exp]
+    out = harness("c16-date", {"ts": ts, "dirs": [], "comps": [], "fields": [g["lf"] for g in exp]}, "wide", env={"TZ": tz})[1:]
+    if len(out) != len(exp):
+        raise vlib.Infra("c16-date (wide) returned %d results for %d instants" % (len(out), len(exp)))
+    fails = []
+    for g, t, o in zip(exp, ts, out):
+        rp = {"part": "datewide", "tz": tz, "offset": off, "d": g["d"], "s": g["s"], "t": t}
+        yc = year_class(g["lf"]["year"])
+        if "panic" in o:
+            fails.append(("C16:date:go-panic", "Go panic for t=%d: %s" % (t, o["panic"]), rp))
+            continue
+        for pre, fk, ek in (("", "lt", "lf"), ("!", "ut", "uf")):
+            for f in FIELDS:
+                if o[fk].get(f) != g[ek][f]:
+                    fails.append(("C16:date:*t:%s:%s" % (f, yc), "TZ=%s t=%d: os.date('%s*t', t).%s = %s, must be %s" % (
+                        tz, t, pre, f, json.dumps(o[fk].get(f)), json.dumps(g[ek][f])), dict(rp, observed=o[fk], expected=g[ek])))
+        if o["rt"] != t:
+            fails.append(("C16:date:os.time:roundtrip:%s" % yc, "TZ=%s t=%d (%s): os.time(os.date('*t', t)) = %s" % (
+                tz, t, json.dumps(g["lf"]), json.dumps(o["rt"])[:160]), dict(rp, observed=o["rt"])))
+        back = list(divmod(o["fromspec"], 86400)) if isinstance(o["fromspec"], int) else o["fromspec"]
+        if back != g["back"]:
+            fails.append(("C16:date:os.time:fields:%s" % yc, "TZ=%s: os.time(%s) = %s, must be day %d second %d" % (
+                tz, json.dumps(g["lf"]), json.dumps(o["fromspec"])[:160], g["back"][0], g["back"][1]), dict(rp, observed=o["fromspec"])))
+    return fails, len(exp)
+
+
 FMT_DIRS = ["a", "A", "b", "B", "c", "d", "H", "I", "j", "m", "M", "p", "S", "U", "w", "W", "x", "X", "y", "Y", "Z", "%", "F", "P", "z"]
 
 
@@ -760,11 +824,15 @@ def part_dates(thorough, verd, stats, cov):
               [rng.randrange(-2 ** 31 + 200000, 2 ** 31 - 200000) for _ in range(6 if thorough else 2)]
         if not utc:
             fts = fts[:3]
-        ffails, nf = date_format_matrix(tz, off, zname, fts, stats)
+        ffails, nf = date_format_matrix(tz, off, zname, fts, stats) if (thorough or off >= 0) else ([], 0)
         for item in ffails:
             verd.candidate(*item)
         nrend += nf
         cov["dates"]["format_matrix_renderings"] = cov["dates"].get("format_matrix_renderings", 0) + nf
+        wf, nw = date_wide(tz, off, zname, rng, thorough, stats) if (thorough or off == 0) else ([], 0)
+        for item in wf:
+            verd.candidate(*item)
+        cov["dates"]["wide_range_instants"] = cov["dates"].get("wide_range_instants", 0) + nw
         total += len(exp)
         cov["dates"]["zones"].append({"TZ": tz, "offset": off, "abbreviation": zname, "instants": len(exp), "years_with_all_month_boundaries": len(years)})
         cov["dates"]["instants"] += len(exp)
@@ -912,6 +980,12 @@ def replay(path):
             bad = o["rt"] != t or o["fromspec"] != g["back"] or o["fromstr"] != g["back"] or o["noon"] != g["noon"]
         if bad:
             verd.candidate(rec["key"], rec["what"], rp)
+    elif part == "datewide":
+        probe = harness("c16-date", {"ts": [], "dirs": [], "comps": [], "fields": []}, "rpp", env={"TZ": rp["tz"]})[0]
+        fails, _ = date_wide(rp["tz"], rp["offset"], probe["zone"], None, False, stats, only={"d": rp["d"], "s": rp["s"]})
+        for key, what, robj in fails:
+            vlib.log("  fails: [%s] %s" % (key, what))
+            verd.candidate(key, what, robj)
     elif part == "datefmt":
         probe = harness("c16-date", {"ts": [], "dirs": [], "comps": [], "fields": []}, "rpp", env={"TZ": rp["tz"]})[0]
         fails, _ = date_format_matrix(rp["tz"], rp["offset"], probe["zone"], [rp["t"]], stats, only=rp["format"])
